@@ -183,7 +183,7 @@ def run_case(case: dict[str, Any]) -> dict[str, Any]:
             if retries is not None and i >= retries:
                 viol.append({'mech': 'retries-limit-exceeded', 'msg': f"{label}: invoked {i + 1} times with retries={retries}", 'witness': None})
                 break
-            if timeout is not None and c['t'] >= t0 + timeout - 1e-6 and (i > 0 or timeout == 0):
+            if timeout is not None and c['t'] >= t0 + timeout + (1e-6 if timeout else -1e-6) and (i > 0 or timeout == 0):   # kopf stops at runtime >= timeout; 1 us earlier is still in time
                 viol.append({'mech': 'timeout-limit-exceeded', 'msg': f"{label}: attempt #{i} started at t={c['t']}, first attempt at t={t0}, timeout={timeout}", 'witness': None})
                 break
             # gap to the previous attempt
